@@ -14,11 +14,11 @@
    introduces them. *)
 From Otter Require Import Base Sketch Policy Wheel Maint PolicyFacts PolicyInv PolicyBound.
 
-Theorem C04_bound_after_maintenance : forall hashf evs expire weighted cur rnd now,
+Theorem C04_bound_after_maintenance : forall hashf evs expire weighted cur rnd now adj,
   run_ok hashf (sys0 expire weighted) evs ->
   let s := fold_left (sys_step hashf) evs (sys0 expire weighted) in
   sfl s = [] ->
-  let s' := sys_step hashf s (EMaint cur rnd now) in
+  let s' := sys_step hashf s (EMaint cur rnd now adj) in
   let p := pol (sm s') in
   pend s' = [] /\
   wsize p = wrapu (sum_weights p (qwin p ++ qprob p ++ qprot p)) /\
